@@ -938,6 +938,32 @@ func (m *Machine) refusal(t *rapid.T) {
 			// is refused whether or not the point would have been kept
 			pts[pos].Time = time.Unix(0, rapid.Int64Range(1, 1000).Draw(t, "nanOldTime"))
 			m.Flags["nanInStalePoint"] = true
+			// preferably for an identity the target already holds a newer point of
+			var held []fix.P
+			if edge {
+				for _, hp := range m.G.Edge(parent, id).Points {
+					if hp.Type != data.PointTypeTombstone {
+						held = append(held, hp)
+					}
+				}
+			} else {
+				for _, hp := range m.G.NodePoints(id) {
+					held = append(held, hp)
+				}
+			}
+			if len(held) > 0 {
+				sort.Slice(held, func(i, j int) bool { return held[i].Type+"|"+held[i].Key < held[j].Type+"|"+held[j].Key })
+				hp := held[rapid.IntRange(0, len(held)-1).Draw(t, "nanIdentity")]
+				dup := false
+				for i := range pts {
+					if i != pos && model.IdentOf(pts[i].Type, pts[i].Key) == model.IdentOf(hp.Type, hp.Key) {
+						dup = true
+					}
+				}
+				if !dup {
+					pts[pos].Type, pts[pos].Key = hp.Type, hp.Key
+				}
+			}
 		}
 		if len(pts) > 1 && pos > 0 && pos < len(pts)-1 {
 			m.Flags["nanInMiddle"] = true
